@@ -543,6 +543,13 @@ func (e *Enc) run() {
 				e.assume(env.formula(r.E))
 			}
 		}
+		// ghostdef: the DEFINITION of a ghost spec function (declared with `spec`) in terms of the entry state, assumed
+		// at entry and not imposed on callers. It must be a definition by recursion over the integers (a conservative
+		// extension): it may constrain only the spec function it defines.
+		for _, g := range e.con.GhostDefs {
+			e.assume(env.formula(g.E))
+			e.note("ghost definition assumed at entry of %s: %s", fname(e.fn), g.Src)
+		}
 	}
 	for _, b := range order {
 		e.block(b)
